@@ -81,6 +81,118 @@ func runC13(p *Prog, r *Report) {
 	c13ParentOrigin(p, r, "D10-parent-origin")
 }
 
+// isConstStringTableElem: v loads an element of a package-level array or slice of strings that is
+// written only by the package initialiser, and only with constants.
+func isConstStringTableElem(p *Prog, v ssa.Value) bool {
+	globalOf := func(b ssa.Value) *ssa.Global {
+		switch x := b.(type) {
+		case *ssa.Global:
+			return x
+		case *ssa.UnOp:
+			if gg, ok := x.X.(*ssa.Global); ok && x.Op == token.MUL {
+				return gg
+			}
+		}
+		return nil
+	}
+	var g *ssa.Global
+	switch x := v.(type) {
+	case *ssa.Index:
+		g = globalOf(x.X) // element of the loaded array value
+	case *ssa.UnOp:
+		if ia, ok := x.X.(*ssa.IndexAddr); ok && x.Op == token.MUL {
+			g = globalOf(ia.X)
+		}
+	}
+	if g == nil || g.Pkg == nil {
+		return false
+	}
+	ok := true
+	fromG := func(a ssa.Value) bool {
+		for d := 0; d < 4; d++ {
+			switch x := a.(type) {
+			case *ssa.Global:
+				return x == g
+			case *ssa.IndexAddr:
+				a = x.X
+			case *ssa.UnOp:
+				a = x.X
+			default:
+				return false
+			}
+		}
+		return false
+	}
+	nConst := 0
+	constFilled := func(al *ssa.Alloc) {
+		for _, ref := range *al.Referrers() {
+			if ia2, isIA := ref.(*ssa.IndexAddr); isIA {
+				for _, r2 := range *ia2.Referrers() {
+					if s2, isS := r2.(*ssa.Store); isS {
+						if _, isC := s2.Val.(*ssa.Const); isC {
+							nConst++
+						} else {
+							ok = false
+						}
+					}
+				}
+			}
+		}
+	}
+	for _, m := range g.Pkg.Members {
+		fn, isFn := m.(*ssa.Function)
+		if !isFn {
+			continue
+		}
+		for _, f := range withAnon(fn) {
+			forEachInstr(f, func(_ *ssa.BasicBlock, _ int, in ssa.Instruction) {
+				st, isSt := in.(*ssa.Store)
+				if !isSt {
+					return
+				}
+				if fromG(st.Addr) {
+					if f.Name() != "init" {
+						ok = false
+						return
+					}
+					switch val := st.Val.(type) {
+					case *ssa.Const:
+						nConst++
+					case *ssa.Slice:
+						// []string{…}: the backing array is filled with constants in the initialiser
+						if al, isAl := val.X.(*ssa.Alloc); isAl {
+							constFilled(al)
+						} else {
+							ok = false
+						}
+					case *ssa.UnOp:
+						// [...]string{…}: the literal is built in a local and copied
+						if al, isAl := val.X.(*ssa.Alloc); isAl && val.Op == token.MUL {
+							constFilled(al)
+						} else {
+							ok = false
+						}
+					default:
+						ok = false
+					}
+				}
+			})
+		}
+	}
+	// methods are not package members: a write from a method would be missed by the scan above
+	for _, fn := range p.Funcs() {
+		if fnPkg(fn) != g.Pkg.Pkg || fn.Name() == "init" {
+			continue
+		}
+		forEachInstr(fn, func(_ *ssa.BasicBlock, _ int, in ssa.Instruction) {
+			if st, isSt := in.(*ssa.Store); isSt && fromG(st.Addr) {
+				ok = false
+			}
+		})
+	}
+	return ok && nConst > 0
+}
+
 func c13PackageJSON(p *Prog, r *Report) {
 	fn := p.Func("guidedremediation/internal/manifest/npm", "readWriter.Write")
 	if fn == nil {
@@ -126,6 +238,11 @@ func c13PackageJSON(p *Prog, r *Report) {
 			case *ssa.Call:
 				rf2 := refOf(x.Common())
 				if !(rf2.Pkg == "github.com/tidwall/gjson" && rf2.Name == "Escape") {
+					okk = false
+				}
+			case *ssa.UnOp, *ssa.Index:
+				// an element of a package-level table of constant strings (the section names) is a constant
+				if !isConstStringTableElem(p, x) {
 					okk = false
 				}
 			default:
